@@ -30,10 +30,13 @@ NodeSeq == IF Shape = "graph4" THEN <<"g1", "g2", "g3", "g4">> ELSE <<"g1", "g2"
 SetToSeq2(S) == IF S = {} THEN <<>> ELSE LET RECURSIVE F(_)
                                             F(T) == IF T = {} THEN <<>> ELSE LET x == CHOOSE y \in T : TRUE IN <<x>> \o F(T \ {x})
                                         IN F(S)
+\* 3 nodes: any subset of the nodes, the leaf and a dangling reference; 4 nodes: the leaf plus any subset of the nodes
+\* (65536 graphs - all cycle shapes over 4 nodes; the unrestricted product exceeds TLC's set size limit)
+MemberSets == IF Shape = "graph4" THEN {S \cup {"leaf"} : S \in SUBSET GraphNodes} ELSE SUBSET (GraphNodes \cup {"leaf", "gX"})
 GraphCfgs == { [sensors |-> <<[id |-> "s1", nb |-> 1, hwOk |-> TRUE]>>,
                 curves |-> [i \in 1..Len(NodeSeq) |-> [Plain(NodeSeq[i], 1) EXCEPT !.kind = "function", !.fn = "maximum", !.members = SetToSeq2(ms[NodeSeq[i]])]] \o <<Leaf>>,
                 fans |-> <<[id |-> "f1", nb |-> 1, curve |-> "g1", algOk |-> TRUE, hwOk |-> TRUE]>>, documented |-> TRUE] :
-                 ms \in [GraphNodes -> SUBSET (GraphNodes \cup {"leaf", "gX"})] }
+                 ms \in [GraphNodes -> MemberSets] }
 
 NoCfg == [none |-> TRUE]
 Init == IF Shape = "small"
